@@ -331,3 +331,34 @@ impl SenderKind {
 pub open spec fn journalled_one(old_log: Seq<EntryCommand>, new_log: Seq<EntryCommand>) -> bool {
     new_log.len() == old_log.len() + 1 && new_log.drop_last() =~= old_log
 }
+
+// --- system-level wrappers: permission checks and gauges are not part of the id view ---
+impl Permissioner {
+    #[verifier::external_body]
+    pub fn create_topic(&self, user_id: u32, stream_id: u32) -> (r: Result<(), IggyError>) { unimplemented!() }
+    #[verifier::external_body]
+    pub fn create_consumer_group(&self, user_id: u32, stream_id: u32, topic_id: u32) -> (r: Result<(), IggyError>) { unimplemented!() }
+}
+impl Metrics {
+    #[verifier::external_body] pub fn increment_topics(&self, n: u32) { unimplemented!() }
+    #[verifier::external_body] pub fn increment_partitions(&self, n: u32) { unimplemented!() }
+    #[verifier::external_body] pub fn increment_segments(&self, n: u32) { unimplemented!() }
+}
+impl System {
+    // System::find_topic (systems/topics.rs): a read-only lookup (`&self`) whose result feeds the permission check only
+    #[verifier::external_body]
+    pub fn find_topic(&self, session: &Session, stream_id: &Identifier, topic_id: &Identifier) -> (r: Result<&Topic, IggyError>) { unimplemented!() }
+}
+// every stream / topic of the system is well-formed
+pub open spec fn system_deep_wf(s: &System) -> bool {
+    &&& system_wf(s)
+    &&& forall|sid: u32| #[trigger] s.streams@.contains_key(sid) ==> stream_wf(&s.streams@[sid])
+    &&& forall|sid: u32, tid: u32| #[trigger] s.streams@.contains_key(sid) && #[trigger] s.streams@[sid].topics@.contains_key(tid) ==> topic_wf(&s.streams@[sid].topics@[tid])
+}
+// everything of the system record except the `streams` map
+pub open spec fn system_only_streams(a: &System, b: &System) -> bool {
+    *b == (System { streams: b.streams, ..*a })
+}
+pub open spec fn stream_only_topics(a: &Stream, b: &Stream) -> bool {
+    *b == (Stream { topics: b.topics, ..*a })
+}
